@@ -319,6 +319,7 @@ func drawScenarios() map[string][]op {
 		ops = append(ops, op{kind: "set", x: 2, r: 'e', comb: []rune{0x0301}}, op{kind: "set", x: 1, r: 0x2603}, op{kind: "set", x: 0, r: 0xe9, st: 3},
 			op{kind: "fill", r: 'b', st: 2}, op{kind: "clear"}, op{kind: "setstyle", st: 1}, show, sync)
 		out["W-wide-4x1"] = ops
+		out["W2-wide-from-shown-4x1"] = ops // the same alphabet from a screen that has been shown once (non-initial start state)
 	}
 	{
 		ops := []op{{kind: "setsize", w: 3, h: 2}, {kind: "setsize", w: 4, h: 1}, {kind: "setsize", w: 2, h: 2}, {kind: "setsize", w: 1, h: 1},
@@ -346,7 +347,13 @@ func draws() {
 			}
 			tag := name + "/" + cs
 			cfg := &seq.Config{Name: tag, NOps: len(ops), Depth: d, OpName: func(i int) string { return ops[i].String() },
-				New:  func() seq.Sys { return newSys(cs, w0, h0, ops) },
+				New: func() seq.Sys {
+					sys := newSys(cs, w0, h0, ops)
+					if strings.HasPrefix(name, "W2") {
+						sys.Apply(len(ops) - 2) // show
+					}
+					return sys
+				},
 				Mine: hc.Mine, Shard0: *hc.Shard == 0, ShardDepth: 2, Stop: w.Expired, MaxViolationSigs: 8,
 				OnViolation: func(sig, desc string, hist []int) {
 					var names []string
